@@ -80,6 +80,21 @@ def expected_rows(case, custom_fun):
     t = case['t']
     x = [[_fr(v) for v in row] for row in case['x']]
     n = case['n']
+    if t in ('minmax', 'geotop', 'geodesic') and any(v is None for row in x for v in row):
+        # NaN is not supported by these transforms ("NaN where supported"): the property does
+        # not say what an RDM with a missing entry becomes (geotop: the thresholds are taken over
+        # the whole stack, so nothing is said about any RDM); the other RDMs of a min-max stack
+        # must still be transformed as stated
+        if t == 'minmax':
+            out = []
+            for row in x:
+                if any(v is None for v in row):
+                    out.append(['free'] * len(row))
+                else:
+                    lo, hi = min(row), max(row)
+                    out.append(['any'] * len(row) if lo == hi else [(v - lo) / (hi - lo) for v in row])
+            return out
+        return [['free'] * len(row) for row in x]
     if t == 'rank':
         return [ranks(row, case['method']) for row in x]
     if t == 'sqrt':
@@ -162,7 +177,7 @@ def check_tf(case, tf_call, source_desc, custom_fun):
     feat = dict(t=t, claim='values')
     res = tf_call(case)
     exp = expected_rows(case, custom_fun)
-    undefined = any(all(e == 'any' for e in row) for row in exp)
+    undefined = any(all(e in ('any', 'free') for e in row) for row in exp)
     if 'exc' in res:
         if undefined:
             return None       # constant RDM: min-max is 0/0, outside the property
@@ -177,6 +192,8 @@ def check_tf(case, tf_call, source_desc, custom_fun):
     exact = t in ('rank', 'positive')
     for i, (grow, erow) in enumerate(zip(got, exp)):
         for j, (g, e) in enumerate(zip(grow, erow)):
+            if e == 'free':
+                continue
             if e == 'any':
                 # 0/0 of a constant RDM / coinciding thresholds: NaN, or at least inside [0, 1]
                 if g is None or (isinstance(g, float) and -1e-12 <= g <= 1 + 1e-12):
@@ -216,9 +233,13 @@ def check_inv(case, inv_call, tol):
     a = inv_call(case, True)
     b = inv_call(case, False)
     if isinstance(a, dict) or isinstance(b, dict):
-        if a == b:
-            return None
-        return _fail(f"compare after {case['fx']['name']} raised / differs in kind", a, b, **feat)
+        # the stacks are valid RDMs (equal shape, shared NaN positions): every route to the measure
+        # (RDMs objects or arrays, compare(method=...) or the compare_<measure> function) must
+        # return a matrix, before and after the transform
+        return _fail(f"compare ({case.get('route', 'compare')}, arguments {case.get('form_x', 'rdms')}/"
+                     f"{case.get('form_y', 'rdms')}) raised on valid RDMs"
+                     f"{' after ' + case['fx']['name'] if isinstance(a, dict) else ''}", a,
+                     'a similarity matrix' if isinstance(b, dict) else b, **dict(feat, claim='returns'))
     for i, (ra, rb) in enumerate(zip(a, b)):
         for j, (u, v) in enumerate(zip(ra, rb)):
             if u is None or v is None:
